@@ -402,7 +402,7 @@ func verifC16Case(line string) (out string) {
 	sch.runQueue()
 	release()
 	// lockContainer runs in goroutines spawned by runQueue: wait for them
-	deadline := time.Now().Add(5 * time.Second)
+	deadline := time.Now().Add(60 * time.Second)
 	for runtime.NumGoroutine() > base {
 		if time.Now().After(deadline) {
 			return "timeout waiting for lockContainer goroutines"
@@ -454,6 +454,12 @@ func TestVerifC16(t *testing.T) {
 	sc := bufio.NewScanner(in)
 	sc.Buffer(make([]byte, 1<<20), 1<<26)
 	for sc.Scan() {
-		fmt.Fprintln(w, verifC16Case(sc.Text()))
+		out := verifC16Case(sc.Text())
+		if strings.HasPrefix(out, "timeout") {
+			// a verdict must not depend on the load of the machine: run the case once more, alone
+			time.Sleep(100 * time.Millisecond)
+			out = verifC16Case(sc.Text())
+		}
+		fmt.Fprintln(w, out)
 	}
 }
